@@ -151,7 +151,8 @@ def c02(tier):
     combos = [(0, 6, 0), (1, 2, 0)] if tier == "quick" else [(0, 6, 0), (0, 12, 0), (1, 2, 0), (1, 3, 1)]
     jobs = [Job("h_c02::delivery", c, dict(S2), budget_s=4000, validate=30) for c in combos]
     jobs.append(Job("h_c02::dedup_across_packs", (), dict(S2), budget_s=600, validate=1))
-    return dict(jobs=jobs, bounds={"dedup scenario": "a parentless block whose pack omits an object that is stored only in the pack of another, held-back block (one concrete scenario)", "history 0": "c1 <- c2 (2 blocks + 2 packs): all 24 delivery orders of the 4 files, second document among k orders with a symbolic value",
+    jobs.append(Job("h_c02::own_pack_required", (), dict(S2), budget_s=600, validate=10))
+    return dict(jobs=jobs, bounds={"own pack": "a block whose only object is also stored in another replica's pack (symbolic value): visible exactly when block and its own pack are both delivered, either order", "dedup scenario": "a parentless block whose pack omits an object that is stored only in the pack of another, held-back block (one concrete scenario)", "history 0": "c1 <- c2 (2 blocks + 2 packs): all 24 delivery orders of the 4 files, second document among k orders with a symbolic value",
                                    "history 1": "c1 <- cA, c1 <- cB, {cA,cB} <- cM with c1 pre-delivered: all 720 delivery orders of the remaining 6 files",
                                    "after every delivered file": "refresh; state == recorded state of exactly the causally complete blocks; state == Melda::new on the same storage",
                                    "combos [history, k, symbolic value]": [list(c) for c in combos]},
@@ -210,6 +211,8 @@ def c18(tier):
     jobs += [Job("h_tree::tree_rule", (2, 6, 2), {}, budget_s=1500, validate=20)]
     # warm vs cold caches with symbolic capacities 1..3: an observer that read earlier receives several versions at once
     jobs.append(Job("h_c04::observer_chain", (7, 2), dict(S2), budget_s=3000, validate=20))
+    # three concurrent inserts at one array position, learnt in any order, with 1 (thorough: 2) reversed hash iterations
+    jobs.append(Job("h_c18::three_way", (), dict(S2, nd_budget=1 if tier == "quick" else 2), budget_s=3000, validate=20, native_repeats=3))
     return dict(jobs=jobs, bounds={"history": "commit, commit (second document among k orders, optionally staged-discarded-restaged), concurrent commit on a second replica, exchange, reopen",
                                    "compared": "a run with canonical orders and default caches vs a run in which at most nd_budget iteration events (hash-table iterations, visits of the sequentialised worker pool) "
                                                "use the reverse order, the storage lists in reverse order, and both cache capacities are a symbolic value in 1..3",
@@ -245,6 +248,8 @@ def c01(tier):
 def c12(tier):
     combos = [(10, 0), (2, 1)] if tier == "quick" else [(10, 0), (2, 1), (5, 1)]
     jobs = [Job("h_c12::maintenance", c, dict(S2), budget_s=3000, validate=30) for c in combos]
+    # the same with object / descriptor caches of capacity 1: after commit the values come from storage through the pack index
+    jobs.append(Job("h_c12::maintenance", (10, 0, 1), dict(S2), budget_s=3000, validate=20))
     return dict(jobs=jobs, bounds={"state": "two replicas after concurrent array edits (k versions each, incl. inserts at the same position, moves between arrays, removals) and exchange: array and object conflicts pending",
                                    "operations": "meld without refresh; idle refresh + reload; stage_full_snapshot (+ commit, reopen); user edit + commit with automatic array resolution (+ reopen); idle commit",
                                    "combos [versions, symbolic ids of inserted elements]": [list(c) for c in combos]},
@@ -254,8 +259,10 @@ def c12(tier):
 def c13(tier):
     combos = [(4, 0)] if tier == "quick" else [(4, 0), (4, 1), (8, 0)]
     jobs = [Job("h_hist::commit_graph", c, dict(S2), budget_s=3000, validate=30) for c in combos]
+    jobs.append(Job("h_hist::meld_after_travel", (4 if tier == "quick" else 8,), dict(S2), budget_s=3000, validate=20))
     return dict(jobs=jobs, bounds={"history": "c1 <- cA (replica a), c1 <- cB (replica b), merge commit {cA,cB} <- cM, cM <- c5; documents among the first k element orders; commit metadata with a symbolic printable char, nested object, empty object and None",
-                                   "combos [k, symbolic values]": [list(c) for c in combos]},
+                                   "combos [k, symbolic values]": [list(c) for c in combos],
+                                   "meld after travel": "time travel to any block, then meld of a block committed elsewhere on the latest heads, refresh: heads ancestor-free, equal to a reopened replica"},
                 assumptions=S2_ASSUME, note="melda.rs commit / get_anchors / get_delta / load_raw_delta / reload_until / DeltaId from MIR")
 
 
@@ -297,10 +304,11 @@ def c10(tier):
     jobs = [Job("h_c10::junk_item", (11,), dict(S2), budget_s=3000, validate=40),
             Job("h_c10::damaged_item", (), dict(S2), budget_s=3000, validate=40),
             Job("h_c10::damaged_merge", (), dict(S2), budget_s=3000, validate=16),
-            Job("h_c10::live_damage", (), dict(S2), budget_s=3000, validate=3)]
+            Job("h_c10::live_damage", (), dict(S2), budget_s=3000, validate=3),
+            Job("h_c10::live_read_damage", (), dict(S2), budget_s=3000, validate=20)]
     return dict(jobs=jobs, bounds={"history": "one replica, two commits (2 blocks + 2 packs)",
                                    "junk": "names <digits{1..11}>-<word{1,2}>.delta, <word{1..3}>.delta/.pack, revision-like names; content <= 2 symbolic bytes",
-                                   "damage": "any one of the 4 items removed, emptied, truncated by one byte or to half, or one byte (first/middle/last) replaced by any different byte"},
+                                   "re-read": "every byte position of the first pack replaced by any other byte after a live replica (object cache capacity 1) has read all objects; every object read again", "damage": "any one of the 4 items removed, emptied, truncated by one byte or to half, or one byte (first/middle/last) replaced by any different byte"},
                 assumptions=S2_ASSUME + ["hash collisions are assumed away (injective digest model)", "single fault per run"],
                 note="melda.rs reload / fetch_raw_delta / load_raw_delta / check_delta, datastorage.rs try_load_pack / read_raw_value from MIR")
 
